@@ -1,5 +1,233 @@
-"""Kani engine (filled in below)."""
+"""Engine K: Kani function contracts / loop-free harnesses on the real crate (DESIGN.md section 3)."""
+import json
+import os
+import re
+import subprocess
+import time
+import hashlib
+
+VERIF = os.path.dirname(os.path.dirname(os.path.abspath(__file__)))
+CACHE = os.path.join(VERIF, ".cache")
+
+KANI_BASE = ["cargo", "kani", "-Z", "unstable-options", "--ignore-global-asm", "-Z", "function-contracts", "-Z", "stubbing"]
 
 
-def run_groups(prop, groups, tier, repo):
-    return []
+def _target_dir(repo):
+    # one target dir for every checkout: dependencies are shared, engeom itself is keyed by its path
+    return os.path.join(CACHE, "kani-target")
+
+
+def _env():
+    env = dict(os.environ)
+    env["CARGO_NET_OFFLINE"] = "true"
+    return env
+
+
+def _kill_cbmc():
+    subprocess.run(["pkill", "-x", "cbmc"], capture_output=True)
+
+
+def parse_terse(out):
+    """Return {harness: dict(status, checks, failed, cover, failed_checks, time_s)}"""
+    res = {}
+    cur_by_thread = {}
+    lines = out.splitlines()
+    i = 0
+    single = None
+    while i < len(lines):
+        ln = lines[i]
+        m = re.match(r"^(?:Thread (\d+): )?Checking harness (\S+?)\.\.\.", ln)
+        if m:
+            th = m.group(1) or "0"
+            cur_by_thread[th] = m.group(2)
+            single = m.group(2)
+            i += 1
+            continue
+        m = re.match(r"^(?:Thread (\d+): )?\s*$", ln)
+        if (m and m.group(1) is not None and i + 1 < len(lines) and lines[i + 1].startswith("VERIFICATION RESULT")) or ln.startswith("VERIFICATION RESULT"):
+            th = (m.group(1) if m and m.group(1) is not None else "0")
+            h = cur_by_thread.get(th, single)
+            j = i + (1 if not ln.startswith("VERIFICATION RESULT") else 0)
+            block = []
+            while j < len(lines):
+                block.append(lines[j])
+                if lines[j].startswith("Verification Time"):
+                    break
+                j += 1
+            txt = "\n".join(block)
+            d = dict(status="undecided", checks=0, failed=0, cover=None, failed_checks=[], time_s=0.0, raw=txt[-3000:])
+            mm = re.search(r"\*\* (\d+) of (\d+) failed", txt)
+            if mm:
+                d["failed"], d["checks"] = int(mm.group(1)), int(mm.group(2))
+            mm = re.search(r"\*\* (\d+) of (\d+) cover properties satisfied", txt)
+            if mm:
+                d["cover"] = "%s/%s" % (mm.group(1), mm.group(2))
+            fc = []
+            bl = txt.splitlines()
+            for k, l2 in enumerate(bl):
+                if l2.startswith("Failed Checks:"):
+                    loc = bl[k + 1].strip() if k + 1 < len(bl) and bl[k + 1].strip().startswith("File:") else ""
+                    fc.append((l2[len("Failed Checks:"):].strip(), loc))
+            d["failed_checks"] = fc
+            mm = re.search(r"Verification Time: ([\d\.]+)s", txt)
+            if mm:
+                d["time_s"] = float(mm.group(1))
+            if "VERIFICATION:- SUCCESSFUL" in txt:
+                d["status"] = "ok"
+            elif "VERIFICATION:- FAILED" in txt:
+                d["status"] = "fail"
+            if h:
+                res[h] = d
+            i = j + 1
+            continue
+        i += 1
+    return res
+
+
+# CBMC/Kani failures that are tool limits rather than property verdicts
+TOOL_LIMIT = re.compile(r"(unwinding assertion|unsupported|not currently supported|failed to compute|rust_dealloc|free argument|double free|"
+                        r"dereference failure|is not supported|foreign function|caller_location|size_of_val|align_of_val)", re.I)
+
+
+def run_kani(repo, harnesses, jobs=8, timeout=1800, extra=None):
+    cmd = KANI_BASE[:2] + ["--manifest-path", os.path.join(repo, "Cargo.toml"), "--target-dir", _target_dir(repo)] + KANI_BASE[2:] + \
+        ["--output-format", "terse", "-j", str(jobs)] + (extra or [])
+    for h in harnesses:
+        cmd += ["--harness", h]
+    cmd += ["--exact"]
+    t0 = time.time()
+    try:
+        p = subprocess.run(cmd, capture_output=True, text=True, timeout=timeout, env=_env(), cwd=repo)
+        out = p.stdout + "\n" + p.stderr
+        rc = p.returncode
+        to = False
+    except subprocess.TimeoutExpired as e:
+        out = ((e.stdout or b"").decode() if isinstance(e.stdout, bytes) else (e.stdout or "")) + \
+              ((e.stderr or b"").decode() if isinstance(e.stderr, bytes) else (e.stderr or ""))
+        rc, to = -9, True
+        _kill_cbmc()
+    return dict(cmd=" ".join(cmd), rc=rc, out=out, timed_out=to, wall_s=round(time.time() - t0, 1))
+
+
+def playback(repo, harness, timeout=900):
+    """Re-run one failing harness with concrete playback; return list of byte vectors or None."""
+    cmd = KANI_BASE[:2] + ["--manifest-path", os.path.join(repo, "Cargo.toml"), "--target-dir", _target_dir(repo)] + KANI_BASE[2:] + \
+        ["-Z", "concrete-playback", "--concrete-playback=print", "--harness", harness, "--exact"]
+    try:
+        p = subprocess.run(cmd, capture_output=True, text=True, timeout=timeout, env=_env(), cwd=repo)
+    except subprocess.TimeoutExpired:
+        _kill_cbmc()
+        return None, "playback timed out"
+    out = p.stdout
+    m = None
+    # several tests may be printed (one per cover/assertion); take the first that is not for a cover property
+    for blk in re.finditer(r"/// Check for `(\w+)`.*?let concrete_vals: Vec<Vec<u8>> = vec!\[(.*?)\n\s*\];", out, re.S):
+        if blk.group(1) != "cover":
+            m = blk
+            break
+    if not m:
+        return None, out[-1500:]
+    vals = []
+    comments = []
+    for ln in m.group(2).splitlines():
+        ln = ln.strip()
+        if ln.startswith("//"):
+            comments.append(ln[2:].strip())
+        mm = re.match(r"vec!\[([\d,\s]*)\]", ln)
+        if mm:
+            vals.append([int(x) for x in mm.group(1).split(",") if x.strip()])
+    return dict(bytes=vals, pretty=comments), None
+
+
+def native_replay(repo, name, vals, timeout=1500):
+    """Build (cached) a tiny runner against the real crate with --cfg engeom_verif and re-run the harness body."""
+    tag = "main" if os.path.realpath(repo) == "/repo" else hashlib.sha1(os.path.realpath(repo).encode()).hexdigest()[:8]
+    rdir = os.path.join(CACHE, "replay-" + tag)
+    import shutil
+    if tag != "main" and os.path.exists(os.path.join(CACHE, "replay-main", "Cargo.lock")) and not os.path.exists(os.path.join(rdir, "Cargo.lock")):
+        os.makedirs(rdir, exist_ok=True)
+        shutil.copy(os.path.join(CACHE, "replay-main", "Cargo.lock"), os.path.join(rdir, "Cargo.lock"))
+    os.makedirs(os.path.join(rdir, "src"), exist_ok=True)
+    with open(os.path.join(rdir, "Cargo.toml"), "w") as f:
+        f.write('[package]\nname = "vreplay"\nversion = "0.0.0"\nedition = "2021"\n\n[dependencies]\nengeom = { path = "%s" }\n\n[workspace]\n' % os.path.realpath(repo))
+    with open(os.path.join(rdir, "src", "main.rs"), "w") as f:
+        f.write('''fn main() {
+    let a: Vec<String> = std::env::args().collect();
+    let name = &a[1];
+    let vals: Vec<Vec<u8>> = a[2].split(';').filter(|s| !s.is_empty()).map(|v| v.split(',').filter(|s| !s.is_empty()).map(|b| b.parse().unwrap()).collect()).collect();
+    match engeom::verif_kani::replay(name, vals) {
+        Ok(m) => { println!("REPLAY-OK {}", m); }
+        Err(m) => { println!("REPLAY-FAILED {}", m); std::process::exit(1); }
+    }
+}
+''')
+    lock = os.path.join(rdir, "Cargo.lock")
+    if not os.path.exists(lock):
+        try:
+            import shutil
+            shutil.copy(os.path.join(repo, "Cargo.lock"), lock)
+        except Exception:
+            pass
+    env = _env()
+    env["RUSTFLAGS"] = "--cfg engeom_verif"
+    env["CARGO_TARGET_DIR"] = os.path.join(CACHE, "replay-target")
+    try:
+        b = subprocess.run(["cargo", "build", "--offline", "--quiet"], cwd=rdir, env=env, capture_output=True, text=True, timeout=timeout)
+    except subprocess.TimeoutExpired:
+        return dict(reproduced=False, note="native replay build timed out")
+    if b.returncode != 0:
+        return dict(reproduced=False, note="native replay build failed: " + b.stderr[-800:])
+    arg = ";".join(",".join(str(x) for x in v) for v in vals)
+    r = subprocess.run([os.path.join(env["CARGO_TARGET_DIR"], "debug", "vreplay"), name, arg], capture_output=True, text=True, timeout=120)
+    out = (r.stdout + r.stderr).strip()
+    panicked = r.returncode not in (0, 1)
+    return dict(reproduced=(r.returncode != 0), output=out[-1500:], panicked=panicked)
+
+
+def run_groups(prop, entries, tier, repo):
+    """entries: list of dicts(harness, function(s), what, replay, bounded, timeout). Returns list of result dicts."""
+    if not entries:
+        return []
+    names = [e["harness"] for e in entries]
+    to = max([e.get("timeout", 900) for e in entries]) * (3 if tier == "thorough" else 1)
+    run = run_kani(repo, names, jobs=min(8, len(names)), timeout=to + 600)
+    parsed = parse_terse(run["out"])
+    results = []
+    build_failed = ("error: could not compile" in run["out"]) or ("error[E" in run["out"] and not parsed)
+    for e in entries:
+        h = e["harness"]
+        base = dict(group=e.get("group", "kani"), harness=h, functions=e.get("functions", []), what=e.get("what", ""),
+                    bounded=e.get("bounded"), cmd=run["cmd"], trusted=e.get("trusted", []))
+        d = parsed.get(h)
+        if d is None:
+            why = "kani build failed" if build_failed else ("timeout" if run["timed_out"] else "harness result not found in kani output")
+            tail = "\n".join([l for l in run["out"].splitlines() if l.startswith("error")][:5])
+            base.update(status="undecided", reason="%s: %s" % (why, tail or run["out"][-600:]))
+            results.append(base)
+            continue
+        base.update(checks=d["checks"], failed=d["failed"], cover=d["cover"], solver_s=d["time_s"])
+        if d["status"] == "ok":
+            if d["cover"] and d["cover"].split("/")[0] != d["cover"].split("/")[1]:
+                base.update(status="undecided", reason="cover property unsatisfied (vacuous harness): %s" % d["cover"])
+            else:
+                base.update(status="ok")
+        elif d["status"] == "fail":
+            real = [(c, loc) for c, loc in d["failed_checks"] if not TOOL_LIMIT.search(c)]
+            if not real:
+                base.update(status="undecided", reason="only tool-limit checks failed: %s" % "; ".join(c for c, _ in d["failed_checks"][:3]))
+            else:
+                base.update(status="fail", failed_check="; ".join("%s @ %s" % (c, loc) for c, loc in real[:3]), output_tail=d["raw"])
+                cx, err = playback(repo, h)
+                base["counterexample"] = cx
+                if cx and e.get("replay"):
+                    nr = native_replay(repo, e["replay"], cx["bytes"])
+                    base["native_replay"] = nr
+                    if not nr.get("reproduced"):
+                        # CBMC float-model imprecision or harness-only artefact: do not raise an alarm
+                        base.update(status="undecided", reason="Kani counterexample did not reproduce natively on the real code: %s" % json.dumps(nr)[:400])
+                elif cx is None:
+                    base["native_replay"] = dict(reproduced=False, note="no concrete values from kani: %s" % (err or "")[:300])
+        else:
+            base.update(status="undecided", reason="kani gave no verdict: " + d["raw"][-300:])
+        results.append(base)
+    return results
